@@ -101,7 +101,7 @@ func (w *StoreWorld) LastTxOps() map[string]int {
 	w.mu.Lock()
 	defer w.mu.Unlock()
 	m := map[string]int{}
-	for k, v := range w.lastTxOps {
+	for k, v := range detRange(w.lastTxOps) {
 		m[k] = v
 	}
 	return m
@@ -119,7 +119,7 @@ func (w *StoreWorld) OpenUnder(dir string) []string {
 	w.mu.Lock()
 	defer w.mu.Unlock()
 	var out []string
-	for path, p := range w.open {
+	for path, p := range detRange(w.open) {
 		if !p.closed && len(path) > len(dir) && path[:len(dir)] == dir {
 			out = append(out, path)
 		}
